@@ -1346,10 +1346,16 @@ func stateInlineComment(s *Scanner, c byte) state {
 }
 
 func stateMultiLineComment(s *Scanner, c byte) state {
-	if bytes.IsNewLine(c) && s.annotation == annotationNone {
+	if bytes.IsNewLine(c) {
 		// The comment goes on, but the line ends here like everywhere else: the
 		// nodes in front of the comment don't stand on the line it is closed on.
-		s.found(lexeme.NewLine)
+		// The interrupted step gets the line break, as it does behind a # line
+		// comment (it reports the new line, ends an inline annotation, or refuses
+		// the line break), and the step it leaves is the one to return to.
+		s.step = s.returnToStep.Pop()
+		s.step(s, c)
+		s.returnToStep.Push(s.step)
+		s.step = stateMultiLineComment
 		return scanContinue
 	}
 	if (s.index + 1) < s.dataSize {
